@@ -3,7 +3,7 @@
 SPECIFICATION Spec
 CONSTANTS
   Variant = "intended"
-  Kinds = {"mft", "mftn", "ta", "tah", "notify"}
+  Kinds = {"mft", "mftn", "ta", "tah", "notify", "notify1"}
   Mode = "all"
   HostsR = {"h.test", "g.test"}
   HostsH = {"h.test", "..", ""}
